@@ -116,15 +116,13 @@ impl Parsable for ValueStoreBuilder {
                     unimplemented!()
                 };
 
-                // [FIXME] A lot of value means a lot of allocation.
-                // A wrong value here (or a carefully choosen one) may break our program.
-                let mut value_offsets: Vec<Offset> = Vec::with_capacity(value_count + 1);
-                let uninit = value_offsets.spare_capacity_mut();
-                let mut first = true;
+                // The count comes from the file: do not trust it to size the allocation.
+                // (A tail block is at most 64KiB, reading fails at its end whatever the count is.)
+                let mut value_offsets: Vec<Offset> =
+                    Vec::with_capacity(std::cmp::min(value_count, 0x1_0000) + 1);
                 let mut previous = Offset::zero();
-                for elem in &mut uninit[0..value_count] {
-                    let value: Offset = if first {
-                        first = false;
+                for idx in 0..value_count {
+                    let value: Offset = if idx == 0 {
                         Offset::zero()
                     } else {
                         parser.read_usized(offset_size)?.into()
@@ -137,9 +135,8 @@ impl Parsable for ValueStoreBuilder {
                         ));
                     }
                     previous = value;
-                    elem.write(value);
+                    value_offsets.push(value);
                 }
-                unsafe { value_offsets.set_len(value_count) }
                 value_offsets.push(data_size.into());
                 Ok((ValueStoreBuilder::Indexed(value_offsets), data_size))
             }
